@@ -515,13 +515,210 @@ def trivial_family(rng, sg, vg, stats):
             yield doc, [wrap(x) for x in aimed] + vg.values(doc, 1)
 
 
+# ----------------------------------------------------------------------------- numeric keywords far from the origin
+
+QUOTIENT_BITS = [(3, 12), (13, 26), (27, 34), (35, 44), (45, 52), (53, 64)]
+
+
+def _divisor(rng):
+    """(kind, divisor): the three ways a `multipleOf` can be spelled - an integer, a float that is a dyadic rational
+    (every product below is then exact, so its verdict is no rounding matter), and a decimal fraction"""
+    kind = rng.choice(["int", "int-power-of-two", "float-dyadic", "float-dyadic", "float-integral", "float-decimal"])
+    if kind == "int":
+        return kind, rng.choice([1, 2, 3, 5, 7, 10, 12, 1000])
+    if kind == "int-power-of-two":
+        return kind, 2 ** rng.randint(1, 20)
+    if kind == "float-dyadic":
+        return kind, rng.choice([1, 3, 5]) * 2.0 ** -rng.randint(1, 4)
+    if kind == "float-integral":
+        return kind, float(rng.choice([1, 2, 3, 4, 10, 2 ** rng.randint(3, 12)]))
+    return kind, rng.choice([0.1, 0.01, 2.2, 1e-3, 0.3])
+
+
+def _numeric_hosts(rng, sub):
+    """the numeric schema `sub` on its own and seen through other keywords; wrap turns a number into a value reaching it"""
+    p = rng.choice(["a", "b", "n"])
+    return [
+        ("bare", sub, lambda x: x),
+        ("typed-number", {"type": "number", **sub}, lambda x: x),
+        ("typed-integer", {"type": "integer", **sub}, lambda x: x),
+        ("not", {"not": sub}, lambda x: x),
+        ("tuple-item", {"items": [{"type": "string"}, sub]}, lambda x: ["x", x]),
+        ("property", {"properties": {p: sub}}, lambda x: {p: x}),
+        ("oneOf", {"oneOf": [sub, {"type": "string"}]}, lambda x: x),
+        ("anyOf-sibling", {"type": "number", "anyOf": [sub, {"type": "null"}]}, lambda x: x),
+        ("additionalProperties", {"additionalProperties": sub}, lambda x: {p: x}),
+    ]
+
+
+def magnitude_family(rng, stats):
+    """Numeric keywords x values at every order of magnitude.  The statement quantifies over all JSON numbers, and
+    `multipleOf` / the four bounds are decided by arithmetic whose behaviour depends on the size of the operands
+    (quotients, int <-> float conversions), so each divisor is met by multiples and by non-multiples (off by a half,
+    a quarter, three quarters of the divisor, by one) whose quotient has 3 .. 64 bits, in both signs and in both
+    spellings (int / float); each bound by its neighbours at the same magnitudes."""
+    fam = stats.setdefault("magnitude-family", {"schemas": 0, "values": 0, "divisor-kinds": {}, "quotient-bits": {},
+                                                "offsets": {}, "hosts": {}, "bound-keywords": {}})
+    def count(table, key):
+        fam[table][key] = fam[table].get(key, 0) + 1
+    for _ in range(10):
+        kind, m = _divisor(rng)
+        count("divisor-kinds", kind)
+        nums = []
+        for lo, hi in QUOTIENT_BITS:
+            q = rng.getrandbits(rng.randint(lo, hi)) | (1 << (lo - 1))
+            if rng.random() < 0.25:
+                q = -q
+            count("quotient-bits", f"{lo}-{hi}")
+            base = m * q
+            offsets = [("multiple", 0), ("half", m / 2), ("quarter", m / 4), ("three-quarters", 3 * m / 4)]
+            if isinstance(m, int):
+                offsets += [("plus-one", 1), ("plus-half", 0.5)]
+                offsets = [(n, int(o) if o == int(o) else o) for n, o in offsets]
+            for name, off in rng.sample(offsets, 3):
+                try:
+                    x = base + off
+                except OverflowError:
+                    continue
+                count("offsets", name)
+                nums.append(x)
+                if isinstance(x, int) and abs(x) < 2 ** 53 and rng.random() < 0.3:
+                    nums.append(float(x))
+                elif isinstance(x, float) and x == int(x) and rng.random() < 0.3:
+                    nums.append(int(x))
+        sub = {"multipleOf": m}
+        for pos, doc, wrap in rng.sample(_numeric_hosts(rng, sub), 3):
+            count("hosts", pos)
+            fam["schemas"] += 1
+            fam["values"] += len(nums)
+            yield doc, [wrap(x) for x in nums]
+    for _ in range(6):
+        kw = rng.choice(["minimum", "maximum", "exclusiveMinimum", "exclusiveMaximum"])
+        count("bound-keywords", kw)
+        lo, hi = rng.choice(QUOTIENT_BITS)
+        b = rng.getrandbits(rng.randint(lo, hi)) | (1 << (lo - 1))
+        b = rng.choice([b, -b, b + 0.5 if b < 2 ** 51 else float(b), float(b) if b < 2 ** 53 else b])
+        nums = []
+        for d in (-1, 0, 1, -0.5, 0.5):
+            x = b + d if not (isinstance(b, int) and isinstance(d, float) and abs(b) >= 2 ** 52) else b
+            nums.append(x)
+            if isinstance(x, int) and abs(x) < 2 ** 53:
+                nums.append(float(x))
+            elif isinstance(x, float) and x == int(x):
+                nums.append(int(x))
+        sub = {kw: b}
+        for pos, doc, wrap in rng.sample(_numeric_hosts(rng, sub), 2):
+            count("hosts", pos)
+            fam["schemas"] += 1
+            fam["values"] += len(nums)
+            yield doc, [wrap(x) for x in nums]
+
+
+# ----------------------------------------------------------------------------- every kind of element in every schema position
+
+def element_kinds(rng, sg):
+    """(kind, schema): one sub-schema for each way the parser builds an element - boolean and empty schemas, untyped
+    keyword carriers, each typed element, arrays, model classes (with / without declared properties, with required
+    names, constrained only through the other object keywords), type lists, the four compositions alone and next
+    to sibling keywords, literals, annotation-only schemas."""
+    n, m = rng.sample(["a", "b", "c", "d", "id"], 2)
+    title = lambda: rng.choice(["Extra", "Inner", "Sub", "Leaf"])
+    scalar = rng.choice([{"type": "string", "minLength": 1}, {"type": "integer", "minimum": 1}, {"type": "number", "maximum": 2.5},
+                         {"type": "boolean"}, {"type": "null"}])
+    object_only = rng.choice([
+        {"minProperties": 1}, {"maxProperties": 1}, {"additionalProperties": {"type": "integer"}},
+        {"patternProperties": {"^x": {"type": "integer"}}, "additionalProperties": False}, {"propertyNames": {"maxLength": 2}},
+        {"dependencies": {n: [m]}}, {"additionalProperties": False}, {"minProperties": 1, "additionalProperties": {"type": "string"}}])
+    return [
+        ("true", True), ("false", False), ("empty", {}),
+        ("annotation-only", rng.choice([{"description": "d"}, {"title": "T"}, {"default": sg.json_value(1)}])),
+        ("untyped-keywords", rng.choice([{"minProperties": 1}, {"minimum": 2}, {"maxLength": 1}, {"minItems": 1}, {"required": [n]}])),
+        ("typed-scalar", scalar),
+        ("typed-array", {"type": "array", "items": rng.choice([{"type": "integer"}, True, {}])}),
+        ("typed-array-tuple", {"type": "array", "items": [{"type": "integer"}], "additionalItems": rng.choice([False, {"type": "string"}])}),
+        ("object-bare", {"type": "object", "title": title()}),
+        ("object-without-properties", {"type": "object", "title": title(), **object_only}),
+        ("object-empty-properties", {"type": "object", "title": title(), "properties": {}}),
+        ("object-properties", {"type": "object", "title": title(), "properties": {n: {"type": "integer"}}}),
+        ("object-required-declared", {"type": "object", "title": title(), "properties": {n: {"type": "integer"}, m: {}}, "required": [n]}),
+        ("object-required-undeclared", {"type": "object", "title": title(), "required": [n]}),
+        ("type-list", {"type": rng.sample(["integer", "string", "null", "boolean", "array"], 2)}),
+        ("type-list-with-object", {"type": ["object", rng.choice(["null", "array", "string"])], "title": title()}),
+        ("anyOf", {"anyOf": [{"type": "integer"}, {"type": "object", "title": title()}]}),
+        ("oneOf", {"oneOf": [{"type": "integer"}, {"minimum": 2}]}),
+        ("allOf", {"allOf": [{"type": "integer"}, {"minimum": 2}]}),
+        ("not", {"not": rng.choice([{"type": "integer"}, {"type": "object", "title": title()}, False, {}])}),
+        ("composition-with-siblings", {"type": "object", "title": title(), "anyOf": [{"required": [n]}, {"maxProperties": 0}]}),
+        ("const", {"const": rng.choice([1, {}, [], None, {n: 1}])}),
+        ("enum", {"enum": [1, "s", {}, [0]]}),
+    ]
+
+
+def position_hosts(rng, k):
+    """(position, document, wrap): documents holding the sub-schema `k` in one schema position each, in the typed and the
+    untyped spelling of the host; `wrap` turns a value aimed at `k` into values of the document that reach the position."""
+    p, q = rng.sample(["p", "q", "r", "s"], 2)
+    host = rng.choice(["Doc", "Host", "Outer"])
+    typed = lambda t, doc: ({"type": t, **({"title": host} if t == "object" else {}), **doc} if rng.random() < 0.5 else doc)
+    name = lambda x: x if isinstance(x, str) else json.dumps(x, sort_keys=True, default=str)[:6]
+    tuple_len = rng.choice([1, 1, 2, 3])      # the metaschema wants at least one schema in a tuple
+    head = [{"type": "integer"}] * tuple_len
+    return [
+        ("properties", typed("object", {"properties": {p: k}}), lambda x: [{p: x}, {q: x}]),
+        ("required-property", typed("object", {"properties": {p: k}, "required": [p]}), lambda x: [{p: x}, {p: x, q: x}]),
+        ("patternProperties", typed("object", {"patternProperties": {"^z": k}}), lambda x: [{"z1": x}, {"z1": x, "y": x}]),
+        ("additionalProperties", typed("object", {"properties": {p: {}}, "additionalProperties": k}), lambda x: [{p: 1, q: x}, {q: x, "zz": x}]),
+        ("additionalProperties+patternProperties", typed("object", {"patternProperties": {"^z": {}}, "additionalProperties": k}),
+         lambda x: [{"z1": 1, q: x}]),
+        ("dependencies", typed("object", {"dependencies": {p: k}}), lambda x: [{**x, p: 0} if isinstance(x, dict) else x, x]),
+        ("propertyNames", typed("object", {"propertyNames": k}), lambda x: [{name(x): 1}, {name(x): x, "k": 0}]),
+        ("items", typed("array", {"items": k}), lambda x: [[x], [x, x]]),
+        ("items-tuple", typed("array", {"items": [{"type": "integer"}, k]}), lambda x: [[1, x], [1, x, x]]),
+        ("additionalItems", typed("array", {"items": head, "additionalItems": k}),
+         lambda x: [list(range(tuple_len)) + [x], list(range(tuple_len)) + [x, x], list(range(tuple_len))]),
+        ("contains", typed("array", {"contains": k}), lambda x: [[x], [0, x], [x, "s", None]]),
+        ("anyOf", {"anyOf": [k, {"type": "null"}]}, lambda x: [x]),
+        ("oneOf", {"oneOf": [k, {"type": "null"}]}, lambda x: [x]),
+        ("allOf", {"allOf": [k, {}]}, lambda x: [x]),
+        ("not", {"not": k}, lambda x: [x]),
+        ("nested", {"not": {"items": head, "additionalItems": {"properties": {p: k}}}}, lambda x: [list(range(tuple_len)) + [{p: x}]]),
+    ]
+
+
+def position_family(rng, sg, vg, stats):
+    """Element kinds x schema positions: the statement holds for arbitrary nesting, i.e. whatever element the parser builds
+    for a sub-schema (a plain element, a typed one, a model class, a composition, `Nothing`) must behave as that
+    sub-schema wherever it is held.  Each kind is placed in every position and met there by values it accepts and
+    values it rejects (aimed at the sub-schema, plus one of every JSON type)."""
+    fam = stats.setdefault("position-family", {"schemas": 0, "values": 0, "kinds": {}, "positions": {}, "cells": 0})
+    cells = set()
+    for kind, k in element_kinds(rng, sg):
+        aimed = (vg.values(k, 4) if isinstance(k, dict) else []) + [{}, {"k": None}, {"x1": 1}, [], 0, 3, "s", None, True, [{}]]
+        for pos, doc, wrap in position_hosts(rng, k):
+            values = [v for x in aimed for v in wrap(x)]
+            seen, uniq = set(), []
+            for v in values:
+                key = json.dumps(jsonable(v), sort_keys=True, default=str) + str(type(v))
+                if key not in seen:
+                    seen.add(key)
+                    uniq.append(v)
+            fam["schemas"] += 1
+            fam["values"] += len(uniq)
+            fam["kinds"][kind] = fam["kinds"].get(kind, 0) + 1
+            fam["positions"][pos] = fam["positions"].get(pos, 0) + 1
+            cells.add((kind, pos))
+            yield doc, uniq
+    fam["cells"] += len(cells)
+
+
 def run(ctx, scale=1.0):
     rng = random.Random(ctx["seed"])
     out = Outcome()
     out.rule = ("schemas from the grammar-directed generator (harness/gen.py), 8 schema-directed or free values each; "
                 "a case is a (schema, value) pair; non-trivial = the schema object has >= 2 keywords besides title/description; "
                 "distinct = by SHA-256 of the canonical JSON of the pair; every parse is also one step of the process history "
-                "against which earlier elements are re-observed")
+                "against which earlier elements are re-observed; two matrix families close the run: numeric keywords x operands of "
+                "3 .. 64 bits (magnitude-family) and element kinds x schema positions (position-family)")
     stats = {}
     hist = {}
     drv = core.Driver()
@@ -548,6 +745,18 @@ def run(ctx, scale=1.0):
             kw_hist(schema, hist)
             values = vg.values(schema, N_VALUES) + [core.NP]
             check_case(drv, schema, values, out, stats, hist=history, watch=watch)
+        # the two matrix families come last, so that the random stream of the families above is what it always was
+        sg.extreme = vg.extreme = vg.free.extreme = False
+        before = out.evaluations
+        for schema, values in magnitude_family(rng, stats):
+            kw_hist(schema, hist)
+            check_case(drv, schema, list(values) + [core.NP], out, stats, hist=history, watch=watch)
+        stats["magnitude-family"]["cases"] = out.evaluations - before
+        before = out.evaluations
+        for schema, values in position_family(rng, sg, vg, stats):
+            kw_hist(schema, hist)
+            check_case(drv, schema, list(values) + [core.NP], out, stats, hist=history, watch=watch)
+        stats["position-family"]["cases"] = out.evaluations - before
         watch.sweep(out, stats)
     finally:
         drv.close()
